@@ -15,8 +15,9 @@ from ..common import Check, HarnessError
 TWIN = False
 MAXTOK = 4
 
-ATOMS_FULL = ["x", "<", ">", ";", ",", "public", ":", '"}{)(]["', "'{'", "int", "::", "=", "struct", "0", "->", "template", "private:"]
-ATOMS_CORE = ["x", "<", ">", ";", '"}{)(]["', ","]
+STR_ATOM = '"}{)\\"(]["'  # one string literal: brackets around an escaped quote
+ATOMS_FULL = ["x", "<", ">", ";", ",", "public", ":", STR_ATOM, "'{'", "int", "::", "=", "struct", "0", "->", "template", "private:"]
+ATOMS_CORE = ["x", "<", ">", ";", STR_ATOM, ","]
 ATOMS = ATOMS_FULL
 GROUPS = [("(", ")"), ("[", "]"), ("{", "}")]
 ALPHA = ATOMS_FULL + ["(", "[", "{"]
@@ -129,10 +130,35 @@ def known_angle(region, toks):
     """known finding D15: the failure disappears when the `<` / `>` tokens are removed (angle-bracket heuristic)"""
     if not EXCUSE_ANGLE or region[0] not in EXCUSE_ANGLE:
         return False
-    if "<" not in toks and ">" not in toks:
+    if not d15_trigger(toks):
         return False
     rest = [t for t in toks if t not in "<>"]
     return judge(region, rest) is None
+
+
+def d15_trigger(toks):
+    """the listed defect's mechanism, stated on the content alone: a '>' arrives while the innermost open bracket is a round /
+    square / curly one AND a '<' is still pending further out - the pinned code then pops back to that '<' and forgets the
+    brackets opened in between.  Content without this shape is not covered by the known finding."""
+    m = {"(": ")", "[": "]", "{": "}", "<": ">"}
+    stack = []
+    for t in toks:
+        if t in m:
+            stack.append(m[t])
+        elif t in (")", "]", "}", ">"):
+            if not stack:
+                continue  # a '>' at depth 0 of the content: ordinary token
+            exp = stack.pop()
+            if t == exp:
+                continue
+            if t == ">":
+                if ">" in stack:
+                    return True
+                stack.append(exp)
+                continue
+            while exp == ">" and stack:  # a real closer: pending '<' were comparisons
+                exp = stack.pop()
+    return False
 
 
 def replay(vals):
@@ -179,7 +205,7 @@ def run(tier):
         ck.traces += 1
         if bad is None:
             raise HarnessError(f"counterexample did not reproduce: {msg} {region[0]} {toks}")
-        angle = ("<" in toks or ">" in toks) and judge(region, [t for t in toks if t not in "<>"]) is None
+        angle = d15_trigger(toks) and judge(region, [t for t in toks if t not in "<>"]) is None
         key = dict(kind="soup", cls="angle-heuristic" if angle else "other", region=region[0])
         sig = (key["cls"], key["region"], bad[:30])
         if sig in seen:
